@@ -462,6 +462,14 @@ func crashSite(stack string) string {
 	return "unknown"
 }
 
+// preAddr is the 20-byte address 0x00..0n (common.BytesToAddress would put a
+// short input at the front of the address).
+func preAddr(n int) common.Address {
+	var a common.Address
+	a[19] = byte(n)
+	return a
+}
+
 func caseValue(c *Case) *big.Int {
 	v := new(big.Int)
 	if c.Value != "" {
@@ -473,7 +481,7 @@ func caseValue(c *Case) *big.Int {
 // exec runs one case against the real EVM and only observes.
 func (h *harness) exec(c *Case) (res execResult) {
 	if c.Kind == "pre" {
-		p, ok := vm.PrecompiledContracts[common.BytesToAddress([]byte{byte(c.Pre)})]
+		p, ok := vm.PrecompiledContracts[preAddr(c.Pre)]
 		if !ok {
 			return
 		}
@@ -821,14 +829,14 @@ func childMain(r *mon.Run, args []string) {
 	nshards, _ := strconv.Atoi(args[2])
 	start, _ := strconv.Atoi(args[3])
 	h := boot(r, cfg)
-	cases := generate(r, cfg)
 	var n int64
 	sampled := map[string]bool{}
-	for pos := range cases {
+	pos := -1
+	generate(r, cfg, func(c *Case) {
+		pos++
 		if pos%nshards != shard || pos < start {
-			continue
+			return
 		}
-		c := &cases[pos]
 		c.Pos = pos
 		lb, _ := json.Marshal(logged{Pos: pos, Case: c})
 		if c.Fam == "gaswrap" || n%1000 == 999 {
@@ -842,7 +850,7 @@ func childMain(r *mon.Run, args []string) {
 			sampled[c.Fam] = true
 			r.Sample(c)
 		}
-	}
+	})
 	h.flushOps()
 	h.cleanup()
 	r.Finish(mon.Coverage{Evaluations: n})
